@@ -3,7 +3,7 @@
 No PostgreSQL / MySQL / Oracle server or driver exists in this sandbox; the dialect modules are imported with stub driver modules so that their builder / translator /
 value-class CODE is real. Every contract below takes the dialect (and paramstyle) as a quantified configuration and proves the dialect's SQL equal to the
 dialect-INDEPENDENT Python meaning under the dialect's documented semantics; agreement between dialects is the corollary. The contracts are the dialect-quantified ones of
-C01 (truth tests), C06 (literals, LIKE, MOD), C24 (LIMIT without bound) and C25 (string slicing), re-run here, plus dialect-only literal forms."""
+C01 (truth tests), C06 (literals, LIKE, MOD), C24 (LIMIT without bound) and C25 (string slicing), re-run here, plus dialect-only literal forms, plus (bounded) the string functions of every dialect builder (c02_strings)."""
 import z3
 from vf.verify import Contract, Case
 from vf.inputs import Inputs, term, same
@@ -11,6 +11,8 @@ from vf.proxy import SymStr
 from contracts import stubs
 stubs.install_driver_stubs()
 from contracts import c01, c06, c24, c25
+from contracts import c02_strings as STR
+from contracts import c02_dates as DT
 from pony.orm import sqlbuilding as sb
 from pony.orm.dbproviders import sqlite as sq, postgres as pg, mysql as my
 
@@ -57,7 +59,19 @@ CONTRACTS = (_pick(c01, ['truth_test_and_not', 'CmpMonad.negate'])
              + _pick(c06, ['Value.quote_str', 'StringMixin._like', 'SQLBuilder.MOD'])
              + _pick(c24, ['construct_sql_ast.LIMIT'])
              + [Contract('Value.__str__.scalars', ['pony.orm.sqlbuilding:Value.__str__', 'pony.orm.dbproviders.postgres:PGValue.__str__'], _val_configs, _val_case,
-                         [('booleans_null_and_integers_rendered_per_dialect', _val_spec)])])
+                         [('booleans_null_and_integers_rendered_per_dialect', _val_spec)]),
+                Contract('dialect_string_functions', ['pony.orm.sqlbuilding:SQLBuilder.TRIM', 'pony.orm.sqlbuilding:SQLBuilder.LTRIM', 'pony.orm.sqlbuilding:SQLBuilder.RTRIM',
+                                                      'pony.orm.sqlbuilding:SQLBuilder.CONCAT', 'pony.orm.sqlbuilding:SQLBuilder.REPLACE', 'pony.orm.dbproviders.mysql:MySQLBuilder.TRIM',
+                                                      'pony.orm.dbproviders.mysql:MySQLBuilder.LTRIM', 'pony.orm.dbproviders.mysql:MySQLBuilder.RTRIM', 'pony.orm.dbproviders.mysql:MySQLBuilder.CONCAT',
+                                                      'pony.orm.dbproviders.mysql:MySQLBuilder.LENGTH'],
+                         STR.configs, STR.case, [('every_dialect_answers_what_the_python_method_answers', STR.spec)], level='bounded', bound=STR.BOUND),
+                Contract('dialect_date_functions', ['pony.orm.sqlbuilding:SQLBuilder.SECOND', 'pony.orm.sqlbuilding:SQLBuilder.YEAR', 'pony.orm.sqlbuilding:SQLBuilder.DATE', 'pony.orm.sqlbuilding:Value.__str__',
+                                                    'pony.orm.dbproviders.postgres:PGSQLBuilder.DATETIME_ADD', 'pony.orm.dbproviders.postgres:PGSQLBuilder.DATETIME_SUB', 'pony.orm.dbproviders.postgres:PGSQLBuilder.DATETIME_DIFF',
+                                                    'pony.orm.dbproviders.postgres:PGSQLBuilder.DATE_DIFF', 'pony.orm.dbproviders.postgres:PGSQLBuilder.DATE',
+                                                    'pony.orm.dbproviders.mysql:MySQLBuilder.DATE_ADD', 'pony.orm.dbproviders.mysql:MySQLBuilder.DATE_SUB', 'pony.orm.dbproviders.mysql:MySQLBuilder.DATETIME_DIFF',
+                                                    'pony.orm.dbproviders.mysql:MySQLBuilder.SECOND', 'pony.orm.dbproviders.mysql:MySQLValue.__str__',
+                                                    'pony.orm.dbproviders.oracle:OraBuilder.DATETIME_ADD', 'pony.orm.dbproviders.oracle:OraBuilder.DATE', 'pony.orm.converting:timedelta2str'],
+                         DT.configs, DT.case, [('every_dialect_answers_what_python_answers', DT.spec)], level='bounded', bound=DT.BOUND)])
 
 
 def startup(rep, tier):
